@@ -6,6 +6,7 @@ import (
 	"encoding/gob"
 	"errors"
 	"fmt"
+	"os"
 	"sort"
 	"sync"
 
@@ -35,6 +36,13 @@ func OpenIndexFromBoltDatabase(db *bbolt.DB, opts ...IndexOption) (*Index, error
 	idx.db = db
 
 	err := db.View(func(tx *bbolt.Tx) error {
+		// bbolt trusts its meta page: if the file ends before the last page the
+		// meta page accounts for (a file cut short while it was being created),
+		// touching such a page is a fatal fault (SIGBUS), not an error.
+		if fi, err := os.Stat(db.Path()); err == nil && fi.Size() < tx.Size() {
+			return fmt.Errorf("not an updog index: file has %d bytes, the database in it needs %d", fi.Size(), tx.Size())
+		}
+
 		bucket := tx.Bucket([]byte("data"))
 		if bucket == nil {
 			return errors.New("not an updog index: data bucket not found")
